@@ -595,7 +595,7 @@ theorem viewFold_ge_essentialEvs (t : Int) :
       · simp only [hp, if_false, List.mem_singleton] at hc
         subst hc
         have hreset : resetsIdle e.lastHandled (some p) e.ess = true := by
-          simp [resetsIdle, resetCond, hp]
+          simp [resetsIdle, resetCond, resetAtoms, hp]
         obtain ⟨h1, h2⟩ := viewStep_ge_of_reset t (acc, some p) e hreset
         have := viewFold_ge t xs ((viewStep t (acc, some p) e).1, some e.ess)
         simp only at this
@@ -619,7 +619,7 @@ theorem viewOf_ge_essentialEvs (created : Int) (evs : List Ev) (t : Int) (e : Ev
       · simp only [hl, if_false, List.mem_singleton] at he
         subst he
         have hreset : resetsIdle e.lastHandled none e.ess = true := by
-          simp [resetsIdle, resetCond, hl]
+          simp [resetsIdle, resetCond, resetAtoms, hl]
         obtain ⟨h1, h2⟩ := viewStep_ge_of_reset t (created, none) e hreset
         have := viewFold_ge t xs ((viewStep t (created, none) e).1, some e.ess)
         simp only at this
@@ -696,31 +696,110 @@ theorem viewOf_ge_essential (created : Int) (evs : List Ev) (t c : Int)
   subst het
   exact (viewOf_ge_essentialEvs created evs t e he).1 ht
 
-/-! ### settled histories (finding C10-F3): events that change nothing and leave nothing pending do not move the view -/
+/-! ### histories without a change (fixed finding C10-F3): events that show the same essence do not move the view -/
 
-theorem viewStep_settled (t : Int) (acc : Int) (n : Nat) (e : Ev) (he : e.ess = n) (hl : e.lastHandled = some n) :
+theorem resetsIdle_none (lh : Option Nat) (n : Nat) : resetsIdle lh none n = (lh != some n) := by
+  simp [resetsIdle, resetCond, resetAtoms]
+
+theorem resetsIdle_some (lh : Option Nat) (p n : Nat) : resetsIdle lh (some p) n = (p != n) := by
+  simp [resetsIdle, resetCond, resetAtoms]
+
+theorem viewStep_unchanged (t : Int) (acc : Int) (n : Nat) (e : Ev) (he : e.ess = n) :
     viewStep t (acc, some n) e = (acc, some n) := by
-  unfold viewStep resetsIdle resetCond stamp
-  simp [he, hl]
+  unfold viewStep
+  simp only [resetsIdle_some, he]
+  simp [stamp]
 
-theorem viewFold_settled (t : Int) (n : Nat) (es : List Ev) (h : ∀ e ∈ es, e.ess = n ∧ e.lastHandled = some n) :
+theorem viewFold_unchanged (t : Int) (n : Nat) (es : List Ev) (h : ∀ e ∈ es, e.ess = n) :
     ∀ acc : Int, es.foldl (viewStep t) (acc, some n) = (acc, some n) := by
   induction es with
   | nil => intro acc; rfl
   | cons e es ih =>
     intro acc
     have he := h e (List.mem_cons_self ..)
-    rw [List.foldl_cons, viewStep_settled t acc n e he.1 he.2]
+    rw [List.foldl_cons, viewStep_unchanged t acc n e he]
     exact ih (fun x hx => h x (List.mem_cons_of_mem _ hx)) acc
 
-/-- with nothing but settled events after the first one, the view is the one of the first event alone -/
-theorem viewOf_settled (created : Int) (e0 : Ev) (es : List Ev) (h : Settled e0 es) (t : Int) :
+/-- with no change of the essence after the first event, the view is the one of the first event alone -/
+theorem viewOf_unchanged (created : Int) (e0 : Ev) (es : List Ev) (h : Unchanged e0 es) (t : Int) :
     viewOf created (e0 :: es) t = viewOf created [e0] t := by
   unfold viewOf
   rw [List.foldl_cons]
   have hs : viewStep t (created, none) e0 = ((viewStep t (created, none) e0).1, some e0.ess) := rfl
-  rw [hs, viewFold_settled t e0.ess es h]
+  rw [hs, viewFold_unchanged t e0.ess es h]
   simp [List.foldl]
+
+/-! ### `idle_reset_time` is the creation time of the memory or a stamp of an ESSENTIAL change — nothing else -/
+
+theorem stampsOf_append (xs ys : List Ev) : stampsOf (xs ++ ys) = stampsOf xs ++ stampsOf ys := by
+  induction xs with
+  | nil => rfl
+  | cons x xs ih => simp [stampsOf, ih]
+
+theorem stamp_cases (r : Bool) (t x acc : Int) : stamp r t x acc = acc ∨ (r = true ∧ stamp r t x acc = x) := by
+  unfold stamp
+  split
+  · rename_i hc
+    simp only [Bool.and_eq_true] at hc
+    exact Or.inr ⟨hc.1.1, rfl⟩
+  · exact Or.inl rfl
+
+/-- one event: the view stays, or the event resets idling and the view is one of its two stamps -/
+theorem viewStep_cases (t : Int) (s : Int × Option Nat) (e : Ev) :
+    (viewStep t s e).1 = s.1 ∨
+      (resetsIdle e.lastHandled s.2 e.ess = true ∧ ((viewStep t s e).1 = e.recv ∨ (viewStep t s e).1 = e.t)) := by
+  unfold viewStep
+  simp only
+  rcases stamp_cases (resetsIdle e.lastHandled s.2 e.ess) t e.t (stamp (resetsIdle e.lastHandled s.2 e.ess) t e.recv s.1) with h2 | ⟨hr, h2⟩
+  · rcases stamp_cases (resetsIdle e.lastHandled s.2 e.ess) t e.recv s.1 with h1 | ⟨hr, h1⟩
+    · left; rw [h2, h1]
+    · right; exact ⟨hr, Or.inl (by rw [h2, h1])⟩
+  · right; exact ⟨hr, Or.inr h2⟩
+
+theorem viewFold_mem (t : Int) :
+    ∀ (evs : List Ev) (acc : Int) (p : Nat),
+      (evs.foldl (viewStep t) (acc, some p)).1 = acc ∨
+      (evs.foldl (viewStep t) (acc, some p)).1 ∈ stampsOf (essentialEvsAfter p evs) := by
+  intro evs
+  induction evs with
+  | nil => intro acc p; exact Or.inl rfl
+  | cons x xs ih =>
+    intro acc p
+    simp only [List.foldl_cons]
+    have hs : viewStep t (acc, some p) x = ((viewStep t (acc, some p) x).1, some x.ess) := rfl
+    rw [hs]
+    simp only [essentialEvsAfter, stampsOf_append, List.mem_append]
+    rcases ih (viewStep t (acc, some p) x).1 x.ess with h | h
+    · rcases viewStep_cases t (acc, some p) x with h0 | ⟨hr, h0⟩
+      · left; rw [h, h0]
+      · right; left
+        rw [resetsIdle_some] at hr
+        have hp : ¬ p = x.ess := by simpa using hr
+        simp only [hp, if_false, stampsOf, h]
+        rcases h0 with h0 | h0 <;> simp [h0]
+    · right; right; exact h
+
+/-- what a timer reads as `idle_reset_time` is the creation time of the memory, or one of the two stamps of an
+    essential change — for every event history and every instant -/
+theorem viewOf_mem (created : Int) (evs : List Ev) (t : Int) :
+    viewOf created evs t = created ∨ viewOf created evs t ∈ stampsOf (essentialEvs evs) := by
+  unfold viewOf
+  cases evs with
+  | nil => exact Or.inl rfl
+  | cons x xs =>
+    simp only [List.foldl_cons]
+    have hs : viewStep t (created, none) x = ((viewStep t (created, none) x).1, some x.ess) := rfl
+    rw [hs]
+    simp only [essentialEvs, stampsOf_append, List.mem_append]
+    rcases viewFold_mem t xs (viewStep t (created, none) x).1 x.ess with h | h
+    · rcases viewStep_cases t (created, none) x with h0 | ⟨hr, h0⟩
+      · left; rw [h, h0]
+      · right; left
+        rw [resetsIdle_none] at hr
+        have hp : ¬ x.lastHandled = some x.ess := by simpa using hr
+        simp only [hp, if_false, stampsOf, h]
+        rcases h0 with h0 | h0 <;> simp [h0]
+    · right; right; exact h
 
 /-- the view of a single resetting event, read after both of its stamps -/
 theorem viewOf_single (created : Int) (e0 : Ev) (t : Int) (hr : resetsIdle e0.lastHandled none e0.ess = true)
